@@ -10,6 +10,7 @@ pub struct Lc {
     pub gid: int,                // ghost identity of the current actor value (C01 fold, C07, C17)
     pub recreated: nat,          // how many times the value was replaced by `Default::default()` (C07)
     pub timers_live: bool,       // timers of the current incarnation may be live (C07)
+    pub abandoned: nat,          // how many handler invocations were abandoned so far (C11; never for a stream-attached actor, C13)
     pub run_slot: int,           // the oneshot slot every Addr/WeakAddr/Context observes through `running` (C04, C14)
 }
 pub enum Ev {
@@ -50,7 +51,8 @@ pub open spec fn step(s: Lc, e: Ev) -> Lc {
         Ev::StreamItem { k } => Lc { pending: Some(k), restart_pending: false, ..s },
         Ev::DeqStop | Ev::DeqNone | Ev::StreamEnd => Lc { ph: Ph::Draining, restart_pending: false, ..s },
         Ev::DeqRestart => Lc { restart_pending: true, ..s },
-        Ev::RunDone { .. } | Ev::RunAbandoned { .. } => Lc { pending: None, ..s },
+        Ev::RunDone { .. } => Lc { pending: None, ..s },
+        Ev::RunAbandoned { .. } => Lc { pending: None, abandoned: s.abandoned + 1, ..s },
         Ev::CbStopped { gid } => if s.ph is Running { Lc { ph: Ph::RestartStopped, ..s } } else { Lc { ph: Ph::Stopped, ..s } },
         Ev::CbFinished { .. } => Lc { ph: Ph::Finished, ..s },
         Ev::TimersCleared => Lc { timers_live: false, ..s },
